@@ -307,4 +307,8 @@ def units(tier):
         us.append(u)
     # "under the connection's protocol": the packet is encoded under the context write_packet stamps on it
     from .deps import dependency_units
-    return us + dependency_units('C07')
+    # join game: the game-mode byte on the wire comes out of three settable views - in whatever order they were set
+    from . import c05
+    jm = c05.JoinGameModes()
+    jm.prop, jm.name = 'C07', 'C07.join-game.mode-views'
+    return us + [jm] + dependency_units('C07')
